@@ -10,12 +10,16 @@ use web_time::{SystemTime, UNIX_EPOCH};
 
 #[inline]
 pub(crate) fn get_system_timezone() -> TemporalResult<String> {
+    #[cfg(temporal_verif)]
+    use crate::verif_hooks::iana_time_zone;
     iana_time_zone::get_timezone().map_err(|e| TemporalError::general(e.to_string()))
 }
 
 /// Returns the system time in nanoseconds.
 #[cfg(feature = "sys")]
 pub(crate) fn get_system_nanoseconds() -> TemporalResult<u128> {
+    #[cfg(temporal_verif)]
+    use crate::verif_hooks::time::SystemTime;
     SystemTime::now()
         .duration_since(UNIX_EPOCH)
         .map_err(|e| TemporalError::general(e.to_string()))
